@@ -474,3 +474,50 @@ float("+inf") < float("nan")
         );
     }
 }
+
+/// Kani proof harnesses (all `f64` bit patterns, loop-free: each run is a complete proof).
+#[cfg(feature = "verif_kani")]
+mod verif_kani {
+    use std::cmp::Ordering;
+
+    use super::*;
+
+    /// `compare_impl` is a total order on all floats: reflexive, antisymmetric, all NaNs equal and greatest.
+    #[kani::proof]
+    fn c09_float_compare_reflexive_antisymmetric() {
+        let (a, b): (f64, f64) = (kani::any(), kani::any());
+        assert!(StarlarkFloat::compare_impl(a, a) == Ordering::Equal);
+        assert!(StarlarkFloat::compare_impl(a, b) == StarlarkFloat::compare_impl(b, a).reverse());
+        if a.is_nan() {
+            assert!(StarlarkFloat::compare_impl(a, b) == if b.is_nan() { Ordering::Equal } else { Ordering::Greater });
+        }
+        if !a.is_nan() && !b.is_nan() {
+            assert!((StarlarkFloat::compare_impl(a, b) == Ordering::Less) == (a < b));
+            assert!((StarlarkFloat::compare_impl(a, b) == Ordering::Equal) == (a == b));
+        }
+        kani::cover!(a.is_nan() && !b.is_nan());
+        kani::cover!(a == 0.0 && b == 0.0 && a.to_bits() != b.to_bits());
+    }
+
+    /// ... and transitive, for `<=` and for `==`, over all triples.
+    #[kani::proof]
+    fn c09_float_compare_transitive() {
+        let (a, b, c): (f64, f64, f64) = (kani::any(), kani::any(), kani::any());
+        let (ab, bc, ac) = (
+            StarlarkFloat::compare_impl(a, b),
+            StarlarkFloat::compare_impl(b, c),
+            StarlarkFloat::compare_impl(a, c),
+        );
+        if ab != Ordering::Greater && bc != Ordering::Greater {
+            assert!(ac != Ordering::Greater);
+        }
+        if ab == Ordering::Equal && bc == Ordering::Equal {
+            assert!(ac == Ordering::Equal);
+        }
+        if ab == Ordering::Less && bc != Ordering::Greater {
+            assert!(ac == Ordering::Less);
+        }
+        kani::cover!(ab == Ordering::Less && bc == Ordering::Less);
+        kani::cover!(a.is_nan() && b.is_nan() && c.is_nan());
+    }
+}
